@@ -14,8 +14,11 @@ cd "$ROOT"
 TIER="${TIER:-quick}"
 for id in "$@"; do
   start=$(date +%s)
+  # (the evidence file describes the unchanged tree: keep it)
+  cp "evidence/$id.json" "out/evidence-$id.keep" 2>/dev/null
   out=$(./check "$id" "$TIER" 2>&1)
   code=$?
+  cp "out/evidence-$id.keep" "evidence/$id.json" 2>/dev/null
   end=$(date +%s)
   key=$(echo "$out" | grep -m1 '^key=' | cut -c1-160)
   case $code in
